@@ -57,6 +57,8 @@ def stopxCmd (args : List String) : String :=
   match args with
   | ["unix", c] => if c = "new" ∨ c = "skbuf" ∨ c = "skbufsz" then "RESX OK latency_ok=1" else "BADARG"
   | ["chan", "b"] => "RESX OK latency_ok=1"
+  -- datagrams from a peer without a pathname are failed reads: the loop polls the flag after each (C18.stop_poll_ends_reception)
+  | ["unixnoise", c] => if c = "burst" ∨ c = "steady" then "RESX OK latency_ok=1" else "BADARG"
   | _ => "BADARG"
 
 end Portus.Driver
